@@ -162,6 +162,24 @@ def run(ctx):
                             f"{js}: {interp.state_diff(got, want)}",
                             {"forall": any(e[0] == "forall" for m in members for e in W.action(m[0])["eff"])})
         ctx.log("order", pi, perm, "ok")
+    # ---- the same ground call listed twice (an agent given only by its slot): applied twice, like any two members
+    if members and ops.chance(1, 3):
+        m = ops.pick(members)
+        ok2, want2, _ = interp.serialisable(S, [(W.action(m[0]), m[1])] * 2, W.D, W.objs)
+        if ok2 and not interp.too_large(want2):
+            twice = [ActionCall(name=m[0], grounded_parameters=list(m[1])) for _ in range(2)]
+            try:
+                r = apply_actions(d, s0, twice, problem_objects=p.objects)
+                got = C.abs_state(r, "apply_actions", ID)
+            except Exception as e:
+                raise Violation("C16/joint-action-raised", "apply_actions", f"{[str(c) for c in twice]}: {type(e).__name__}: {e}")
+            if not interp.state_eq(got, want2):
+                raise Violation("C16/joint-result-differs", "apply_actions",
+                                f"the same call twice {[str(c) for c in twice]}: {interp.state_diff(got, want2)}",
+                                {"duplicate_member": True})
+            ctx.probes["duplicate_member_checked"] += 1
+            if not interp.state_eq(want2, want):
+                ctx.probes["duplicate_member_not_idempotent"] += 1
     # ---- nop-only joint action: unchanged
     js = joint_string([None] * len(agents))
     try:
